@@ -295,6 +295,10 @@ impl Network {
             );
         }
 
+        // release the peers lock: requesting the blockchain takes the configuration
+        // and blockchain locks, which come before peers in the lock order
+        drop(peers);
+
         self.io_interface
             .send_interface_event(InterfaceEvent::PeerConnected(peer_index));
         // start block syncing here
